@@ -1,1 +1,21 @@
+import Got.Model.Ants
+import Got.Lemmas.Ants
 /- property theorems of C07 (only theorems + non-vacuity examples live here) -/
+open Got.Model.Ants
+
+/-- the schedule of the torn-result defect on the code before the decided flag (N = 1, T = 1000, R = 2) -/
+def c07TornActs : List Act :=
+  [.send 0 { timeout := 1000, retry := 2, discard := true, hasCb := true }, .busyTest 0, .enq 0, .take 0,
+   .loopTest 0, .sendCl 0, .wTake 0 0 0, .wStart 0 0 false, .hook3 0, .advance 900, .wEnd 0 0 7 .nil, .wCheck 0 0,
+   .advance 1000, .fire 0 0, .selCtx 0, .hook2 0, .writeDE 0, .cancel 0, .errTest 0,
+   .loopTest 0, .sendCl 0, .hook3 0, .advance 2000, .fire 0 1, .selCtx 0, .hook2 0, .writeDE 0, .cancel 0, .errTest 0,
+   .loopTest 0, .onError 0, .wgDone 0,
+   .hook1 0 0, .wWrite 0 0]
+
+/-- OLD code: after onError(DeadlineExceeded) and Done (first Get2 = (nil, DE)) the first attempt's write lands:
+    a later Get2 returns (7, nil). -/
+theorem C07_old_torn :
+    ∃ s, run { N := 1, old := true } init c07TornActs = some s ∧
+      (s.task 0).pc = .done ∧ (s.task 0).got = some (0, .de) ∧ (s.task 0).onErr = [(.de, 2000)] ∧
+      get2 (s.task 0) = some (7, .nil) := by
+  refine ⟨(run { N := 1, old := true } init c07TornActs).getD init, run_eq_some_getD (by decide), ?_, ?_, ?_, ?_⟩ <;> decide
